@@ -150,6 +150,23 @@ def endpoint(repo, chk, on_write):
         q = pat.guarded_by(gc, cn, pat.test_edge(lambda tt, pol: pol == 'F' and src(tt) in bufs))
         chk.ob('c', ch.ref, 'close() closes at once only when nothing is buffered', q is None, loc(ch, cn.ast), path=pat.path_lines(q) if q else None,
                discr='immediate-iff-empty')
+    # the buffer consulted, the socket closed and the socket recorded for a deferred close are the same socket
+    for cn in ccl:
+        c_ = [c for r, c in pat.method_calls(cn.ast, '_close') if r == 'self'][0]
+        if not c_.args:
+            continue
+        cv_ = src(c_.args[0])
+        tests_ = [e.src for e in [x for n in gc.nodes if n.kind == 'test' for x in n.succ] if e.kind == 'F' and 'self._buffers' in src(e.src.ast) and
+                  Q.reachable_without(gc, cn, start=e.dst, avoid_node=lambda m: m.kind == 'for') is not None or e.dst is cn]
+        keys_ = set()
+        for tn in tests_:
+            for w in ast.walk(tn.ast):
+                if isinstance(w, ast.Subscript) and src(w.value) == 'self._buffers':
+                    keys_.add(src(w.slice))
+                if isinstance(w, ast.Call) and call_name(w) == 'self._buffers.get' and w.args:
+                    keys_.add(src(w.args[0]))
+        chk.ob('c', ch.ref, 'the buffer that decides about an immediate close belongs to the socket that is closed', keys_ == {cv_}, loc(ch, cn.ast),
+               detail=f'buffer of {sorted(keys_)} decides, `{cv_}` is closed', discr='same-socket')
     rec = [n for n in gc.nodes if n.kind == 'stmt' and ('self' in pat.stores_attr(n.ast, '_closeflag', True) or
                                                           any(r == 'self._closeq' for r, _c in pat.method_calls(n.ast, 'append')))]
     bad = None
